@@ -305,6 +305,8 @@ type State struct {
 	iterSeen map[int]string // rangeloop ordinal -> current "seen" set term (Array Int Bool)
 	guardSeen map[string]bool
 	ghostParams map[string]*V
+	wcache map[string][]wentry
+	allocRefs map[string]bool
 	deferStacks [][]*deferRec
 	stack []*ssa.Function
 }
@@ -352,6 +354,14 @@ func (s *State) clone() *State {
 	n.guardSeen = make(map[string]bool, len(s.guardSeen))
 	for k, v := range s.guardSeen {
 		n.guardSeen[k] = v
+	}
+	n.wcache = make(map[string][]wentry, len(s.wcache))
+	for k, v := range s.wcache {
+		n.wcache[k] = v
+	}
+	n.allocRefs = make(map[string]bool, len(s.allocRefs))
+	for k, v := range s.allocRefs {
+		n.allocRefs[k] = v
 	}
 	n.deferStacks = append([][]*deferRec(nil), s.deferStacks...)
 	n.stack = append([]*ssa.Function(nil), s.stack...)
@@ -446,7 +456,47 @@ func stoN(arr string, idx []string, v string) string {
 	return sSto(arr, idx[0], stoN(sSel(arr, idx[0]), idx[1:], v))
 }
 
+type wentry struct {
+	idx []string
+	val string
+}
+
+func sameIdx(a, b []string) bool {
+	if len(a) != len(b) {
+		return false
+	}
+	for i := range a {
+		if a[i] != b[i] {
+			return false
+		}
+	}
+	return true
+}
+
+// distinctIdx: syntactically certain that the two index tuples differ (two different allocation results)
+func (s *State) distinctIdx(a, b []string) bool {
+	for i := range a {
+		if i < len(b) && a[i] != b[i] && s.allocRefs[a[i]] && s.allocRefs[b[i]] {
+			return true
+		}
+		if i < len(b) && a[i] != b[i] && isIntLit(a[i]) && isIntLit(b[i]) {
+			return true
+		}
+	}
+	return false
+}
+
 func (s *State) readLeaf(leaf string, idx []string, leafsort string) string {
+	// read-over-write resolved syntactically where possible (keeps terms small and quantifier matching easy)
+	ws := s.wcache[leaf]
+	for i := len(ws) - 1; i >= 0; i-- {
+		if sameIdx(ws[i].idx, idx) {
+			return ws[i].val
+		}
+		if !s.distinctIdx(ws[i].idx, idx) {
+			break
+		}
+	}
 	return selN(s.comp(leaf, len(idx), leafsort), idx)
 }
 
@@ -457,9 +507,11 @@ func (s *State) writeLeaf(leaf string, idx []string, leafsort string, v string) 
 	name := s.run.fresh(leaf, arrSort(len(idx), leafsort))
 	s.assume(sEq(name, nt))
 	s.heap[leaf] = name
+	s.wcache[leaf] = append(s.wcache[leaf][:len(s.wcache[leaf]):len(s.wcache[leaf])], wentry{append([]string(nil), idx...), v})
 }
 
 func (s *State) havocLeaf(leaf string) {
+	delete(s.wcache, leaf)
 	sort, ok := s.run.eng.compSort[leaf]
 	if !ok {
 		delete(s.heap, leaf)
@@ -580,6 +632,18 @@ func (s *State) fieldLoc(ref string, st types.Type, i int) *Loc {
 		return &Loc{T: ft, Obj: id, Ref: id, Owner: st, Field: f.Name(), OwnerRef: ref}
 	}
 	return &Loc{T: ft, Comp: r.tn(st) + "." + f.Name(), Idx: []string{ref}, Owner: st, Field: f.Name(), OwnerRef: ref}
+}
+
+// ixTerm forms the position of element idx of a slice with offset off. The wrapper function keeps quantifier
+// triggers syntactic: (ix off j) is matched as is; its meaning off+j is supplied by a pattern-guarded axiom.
+func (s *State) ixTerm(off, idx string) string {
+	if isIntLit(off) && isIntLit(idx) {
+		return foldArith("+", off, idx)
+	}
+	e := s.run.eng
+	e.declare("(declare-fun ix (Int Int) Int)")
+	e.declare("(assert (forall ((a Int) (b Int)) (! (= (ix a b) (+ a b)) :pattern ((ix a b)))))")
+	return "(ix " + off + " " + idx + ")"
 }
 
 func (s *State) elemLoc(arr, idx string, et types.Type) *Loc {
@@ -775,6 +839,7 @@ func (s *State) allocRef() string {
 	s.run.eng.declare("(declare-fun objkind (Int) Int)")
 	s.run.eng.declare("(declare-fun objowner (Int) Int)")
 	s.assume(sEq("(objkind "+r+")", "0"))
+	s.allocRefs[r] = true
 	return r
 }
 
